@@ -616,6 +616,7 @@ func init() {
 		}
 		checkBudget(r, prog, a, "c11")
 		checkParseWrappersForward(r, prog, "c11")
+		checkOptionListReadOnly(r, prog, "c11") // the budget of a second parse with the same list is the budget of the first
 		checkWrapperResults(r, prog, "c11")
 		r.importing = "C18"
 		checkGetOpts(r, prog, a, "c18") // the budget reaches CreateEvaluator wherever it stands in the option list
@@ -697,7 +698,7 @@ func onlyEnteredFrom(prog *Program, fn *ssa.Function, allowed map[string]bool, d
 }
 
 // checkParseWrappersForward: every exported entry point of package grammar that takes parser options and hands the
-// work to another entry point (ParseFile → ParseReader → Parse) hands its own options on, all of them, as they are: a
+// work on (ParseFile → ParseReader → Parse → the parser's constructor) hands its own options on, all of them, as they are: a
 // budget given to any entry point is the budget the parser runs with.
 func checkParseWrappersForward(r *Run, prog *Program, pfx string) {
 	n := 0
@@ -733,7 +734,7 @@ func checkParseWrappersForward(r *Run, prog *Program, pfx string) {
 				}
 				callee := c.Call.StaticCallee()
 				ci := takesOpts(callee)
-				if ci < 0 || callee.Pkg != prog.GrammarSSA || callee == fn || callee.Object() == nil || !callee.Object().Exported() || ci >= len(c.Call.Args) {
+				if ci < 0 || callee.Pkg != prog.GrammarSSA || callee == fn || callee.Object() == nil || ci >= len(c.Call.Args) {
 					continue
 				}
 				n++
